@@ -213,6 +213,16 @@ Theorem reread_neutral : forall d nbits a counted r d1 p, DInv d ->
 Proof. exact reread_neutral_proof. Qed.
 Print Assumptions reread_neutral.
 
+(* reset (program reload): fresh directory, cleared lower memory, configuration kept — and the
+   counters are KEPT, as in the implementation (BaseCacheMemorySystem.reset does not clear them) *)
+Theorem dc_reset_effects : forall d, geom_ok (cfg (dc d)) ->
+  DInv (dc_reset d) /\ tags_of (dc_reset d) = ref_init (cfg (dc d)) /\
+  counters_of (dc_reset d) = counters_of d /\ lower (dc_reset d) = [] /\
+  cfg (dc (dc_reset d)) = cfg (dc d) /\ wthrough (dc_reset d) = wthrough d /\
+  penalty (dc_reset d) = penalty d.
+Proof. exact dc_reset_proof. Qed.
+Print Assumptions dc_reset_effects.
+
 (** * 6. Non-vacuity: 2 sets x 2 ways, one word per block, penalty 7; the history below has a
       write miss, read hits and misses, an LRU eviction, the write-back of a dirty block, an
       inspection read that misses, a parser preload and a halfword read.  The expected counter
